@@ -198,7 +198,8 @@ Theorem C02_closedb_emitted :
   exists pm, parse_module toks = Some pm /\ closedb (s_root s) pm = true.
 Proof. exact emitted_closed. Qed.
 Print Assumptions C02_closedb_emitted.
-(** ** indirection clause (Model/Sized.v, Proofs/SizedProofs.v) - PARTIAL.
+(** ** indirection clause, first version (Model/Sized.v, Proofs/SizedProofs.v) - PARTIAL and
+    SUPERSEDED by the next section (the rank is a hypothesis here; there it is computed).
 
     [item_edge s m pa pb]: a field of the item at [pa] that is not wrapped in [Box] mentions the
     item path [pb] by value ([bv_subpaths]: tuples, arrays, compact wrappers and the arguments of
@@ -213,13 +214,20 @@ Print Assumptions C02_closedb_emitted.
     Then [rank_path] (the rank of the first struct / enum entry with that path) strictly
     decreases along every edge of the generated items, so no walk returns to its start.
 
-    Missing for DESIGN's C02_sized: (1) the derivation of such a rank from the decidable
-    condition "every cycle of the registry's type graph passes through a Sequence, a [Box]-named
-    field or a heap prelude collection" (a rank check in the style of [rank_ok], with its
-    soundness proof); (2) generic parameters are opaque: a cycle that exists only after
-    instantiation ([B { a: A<B> }] with [A<T> { x: T }]) is not an [item_edge] cycle;
-    (3) the clause "same path => same rank" is an extra hypothesis (it follows from
-    [skeleton_consistent] only for the shape, not for the ids). *)
+    Status of the three items this comment used to list as missing for DESIGN's C02_sized:
+    (1) the derivation of such a rank from a decidable condition on the registry - DONE in the
+    next section: [by_value_acyclicb] (a longest-path rank on item PATHS), [C02_sized],
+    [C02_sized_iff], [C02_unsized_witness], [C02_sized_wf]; not through [bv_ranked], whose last
+    clause makes it unsatisfiable on a registry with two [Option] entries in a chain
+    ([sz_chain_not_ranked], Proofs/ExamplesSizedReg.v), so the three statements below are kept
+    but apply to few registries ([C02_sized_covers_partial]: wherever they apply and generation
+    succeeds, the new boolean holds);
+    (2) generic parameters are opaque: a cycle that exists only after instantiation
+    ([B { a: A<B> }] with [A<T> { x: T }]) is not an [item_edge] cycle - STILL OUTSTANDING, and
+    now the only gap ([sz_instantiation_gap]; on observed output the run-time checker [sizedb],
+    which follows exposed generic arguments, decides it: [prop_sized]);
+    (3) the clause "same path => same rank" as an extra hypothesis - GONE in the next section
+    (a rank on paths has it by construction; [skeleton_consistent] is not needed either). *)
 Theorem C02_sized_rank_partial :
   forall r s rank, root_fresh s -> bv_ranked r s rank ->
   forall teq m, generate r s teq = Ok m ->
